@@ -38,13 +38,15 @@ E1 == <<"e1">>           \* values for ExSeq (a cfg file cannot spell a sequence
 E2 == <<"e1", "e2">>
 
 (* ---- path universe: 10 slots, depth <= 3, with .gitignore files at every directory level ---- *)
-Slot == 1..10
+NSlots == 10              \* the deep family substitutes DeepSlots (cfg: NSlots <- DeepSlots)
+DeepSlots == 12
+Slot == 1..NSlots
 Root == 0
-Path   == <<".gitignore", "a", "a/.gitignore", "a/f", "a/b", "a/b/.gitignore", "a/b/f", "a/b/g", "f", "b">>
-Par    == <<0, 0, 2, 2, 2, 5, 5, 5, 0, 0>>
-Name   == <<".gitignore", "a", ".gitignore", "f", "b", ".gitignore", "f", "g", "f", "b">>
+Path   == <<".gitignore", "a", "a/.gitignore", "a/f", "a/b", "a/b/.gitignore", "a/b/f", "a/b/g", "f", "b", "a/b/c", "a/b/c/f">>
+Par    == <<0, 0, 2, 2, 2, 5, 5, 5, 0, 0, 5, 11>>
+Name   == <<".gitignore", "a", ".gitignore", "f", "b", ".gitignore", "f", "g", "f", "b", "c", "f">>
 IsGiSlot(s) == s \in {1, 3, 6}
-CanDir(s)   == s \in {2, 5, 10}
+CanDir(s)   == s \in {2, 5, 10, 11}
 GiOf(d) == IF d = 0 THEN 1 ELSE IF d = 2 THEN 3 ELSE IF d = 5 THEN 6 ELSE 0   \* the .gitignore slot of directory d (0: none)
 PathOf(s) == IF s = 0 THEN "." ELSE Path[s]
 
@@ -138,7 +140,7 @@ Init == /\ phase = "tree" /\ idx = 1
         /\ cancelled = FALSE /\ status = "run" /\ travfault = FALSE
 
 ChooseNode ==
-  /\ phase = "tree" /\ idx <= 10
+  /\ phase = "tree" /\ idx <= NSlots
   /\ \E k \in {"none", "dir", "file"} \cup FileKinds :
        /\ k # "none" => (NPresent < MaxNodes /\ (IF Par[idx] = 0 THEN TRUE ELSE IsDir(Par[idx])))
        /\ k = "dir" => CanDir(idx)
@@ -149,7 +151,7 @@ ChooseNode ==
           THEN \E at \in Atoms : gic' = [gic EXCEPT ![idx] = {at}]
           ELSE gic' = gic
   /\ idx' = idx + 1
-  /\ phase' = IF idx = 10 THEN "cfg" ELSE "tree"
+  /\ phase' = IF idx = NSlots THEN "cfg" ELSE "tree"
   /\ UNCHANGED <<cfg, req, out, root, ri, stack, gis, inodes, visited, ncalls, calls, late, pkgs, errs, found,
                  cancelled, status, travfault>>
 
@@ -284,7 +286,8 @@ EnterDir(d, rest, g) ==
      ELSE /\ stack' = Append(rest, [d |-> d, todo |-> IF cut >= 0 THEN SubSeq(lst, 1, cut) ELSE lst, second |-> cut >= 0])
           /\ gis' = newg
 
-ParentChain(s) == IF s = 5 THEN <<0, 2>> ELSE <<0>>      \* directories above a requested directory, outermost first
+RECURSIVE ParentChain(_)
+ParentChain(s) == IF Par[s] = 0 THEN <<0>> ELSE Append(ParentChain(Par[s]), Par[s])      \* directories above a requested directory, outermost first
 
 \* the walk of one root / of the next requested path starts
 StartWalk ==
@@ -398,7 +401,7 @@ Containment ==
         LET hit == \E f \in cfg.faults : f.s = s /\ (f.op \in {"open", "fstat", "lazystat"})
         IN calls[<<r, e, s>>] = IF hit THEN 0 ELSE ExpectedCount(r, e, s)
 
-TypeOK == /\ status \in {"run", "ok", "failed"} /\ inodes >= visited /\ Len(gis) <= 4 /\ Len(stack) <= 3
+TypeOK == /\ status \in {"run", "ok", "failed"} /\ inodes >= visited /\ Len(gis) <= 5 /\ Len(stack) <= 4
 
 (* ---- emission of replay cases (binding A) ---- *)
 NodesJson == {[p |-> Path[s], k |-> tree[s], size |-> SizeOf(tree[s]),
@@ -419,6 +422,8 @@ Case == [nodes |-> NodesJson, cfg |-> CfgJson, ex |-> ExSeq,
                      plugins |-> [e \in Ex |-> StatusOf(e)], cancelled |-> cancelled,
                      work_remained |-> \E r \in 1..cfg.roots, e \in Ex, sl \in Slot : calls[<<r, e, sl>>] < ExpectedCount(r, e, sl)]]
 Emit == Done => PrintT(ToJson(Case))
+\* the deep family replays only the trees that reach depth 4 (a/b/c/f)
+EmitDeep == (Done /\ NSlots >= 12 /\ tree[12] # "none") => PrintT(ToJson(Case))
 \* sanity (TLC must violate these): the interesting cases are reachable
 SanityExtract == ~(Done /\ Clean /\ \E x \in DOMAIN calls : calls[x] > 0)
 SanityFailed == ~(Done /\ status = "failed")
